@@ -3,13 +3,15 @@
    property projects what it constrains. *)
 From Coq Require Import String List NArith ZArith Bool.
 From Parsley Require Import Obs Base FileSet Grammar Engine.
+From Parsley Require Top.        (* parsley.Evaluate on engine nodes (C04, flags bit 2); not imported: qualified names only *)
 Import ListNotations.
 Open Scope N_scope.
 
 Definition bytes (s : string) : list N :=
   map (fun a => N.of_nat (Ascii.nat_of_ascii a)) (list_ascii_of_string s).
 
-(* flags: bit 0 = also run the grammar with every Memoize wrapper removed *)
+(* flags: bit 0 = also run the grammar with every Memoize wrapper removed;
+   bit 1 = every Any/Choice is named (C06); bit 2 = also parsley.Evaluate (C04, one more part "Ev", last) *)
 Inductive eng_case := Eng (rules : list pexpr) (root : pexpr) (data : list N) (offset : N) (flags : N).
 
 Definition FUEL : nat := N.to_nat 3000.
@@ -106,6 +108,47 @@ Fixpoint strip_memo (e : pexpr) : pexpr :=
   | _ => e
   end.
 
+(* ---- C04, flags bit 2: parsley.Evaluate (Top.evaluate) with the Sentence root and with the bare root.
+   Values: literals as node values are rendered (a float64 / time.Duration has no lexeme here: "fl" / "du",
+   value not compared), nil = OT "n" [], a slice = OT "L" [...], a map = OT "M" [OL [key; value] ...] sorted by
+   key (bytewise, as sort.Strings).  An evaluation error is rendered as the text Evaluate returns
+   (FileSet.ErrorWithPosition: "<message> at f:<line>:<col>"): the position is observable only through it. ---- *)
+Fixpoint list_N_leb (a b : list N) : bool :=
+  match a, b with
+  | [], _ => true
+  | _ :: _, [] => false
+  | x :: a', y :: b' => if x <? y then true else if y <? x then false else list_N_leb a' b'
+  end.
+Fixpoint kv_insert (kv : list N * obs) (l : list (list N * obs)) : list (list N * obs) :=
+  match l with
+  | [] => [kv]
+  | kv' :: t => if list_N_leb (fst kv) (fst kv') then kv :: l else kv' :: kv_insert kv t
+  end.
+Definition kv_sort (l : list (list N * obs)) : list (list N * obs) := fold_right kv_insert [] l.
+Definition o_evlit (v : lval) : obs :=
+  match v with
+  | VRune c | VChar c => OT "r" [ON c] | VInt z => OT "i" [OZ z] | VStr s => OT "s" [OS s]
+  | VBool b => OT "b" [OB b] | VNil => OT "n" [] | VFloat _ => OT "fl" [] | VDur _ => OT "du" []
+  end.
+Fixpoint o_value (v : Top.value) : obs :=
+  match v with
+  | Top.ValLit l => o_evlit l
+  | Top.ValNil => OT "n" []
+  | Top.ValList l => OT "L" (map o_value l)
+  | Top.ValMap m => OT "M" (map (fun kv => OL [OS (fst kv); snd kv])
+                               (kv_sort (map (fun kv => (fst kv, o_value (snd kv))) m)))
+  end.
+Definition o_evaluated (fs : fileset) (o : outcome Top.evaluated) : obs :=
+  obs_outcome (fun r =>
+    match r with
+    | Top.EvValue v => OT "Val" [o_value v]
+    | Top.EvParseErr _ => OT "PErr" []          (* the text is compared in parts 1 and 2 *)
+    | Top.EvEvalErr e => OT "EErr" [obs_outcome OS (error_with_position fs (cause_msg (ecause e)) (epos e))]
+    end) o.
+Definition o_eval (inp : input) (fs : fileset) (rules : list pexpr) (root : pexpr) : obs :=
+  OT "Ev" [o_evaluated fs (Top.evaluate inp rules FUEL (sentence root));
+           o_evaluated fs (Top.evaluate inp rules FUEL root)].
+
 Definition eng_expected (c : eng_case) : obs :=
   match c with
   | Eng rules root data offset flags =>
@@ -116,7 +159,8 @@ Definition eng_expected (c : eng_case) : obs :=
                o_top inp false fs (parse_top inp rules FUEL root)] ++
               (if N.testbit flags 0
                then [o_raw inp (run inp (map strip_memo rules) FUEL (strip_memo root))]
-               else []))
+               else []) ++
+              (if N.testbit flags 2 then [o_eval inp fs rules root] else []))
   end.
 
 (* ---- projections of an observation ---- *)
